@@ -9,10 +9,12 @@ top of every loop iteration) is the per-iteration hook.
 Modelled kernel behaviour (assumptions): select() reports readable on buffered data and at EOF; recv() on a locally
 closed socket raises OSError(EBADF) and select() on it raises ValueError; recv() returns at most the rest of the
 current chunk; a blocking recv() with nothing buffered and no EOF never returns -> raises `Stall` (BaseException).
+`SyncDUL(tls=True)` puts a TLS-like scripted socket underneath (an ssl.SSLSocket subclass, chunks = TLS records): see `_tls_classes`.
 """
 from __future__ import annotations
 
 import contextlib
+import functools
 import logging
 import socket as _socket
 import types
@@ -54,6 +56,10 @@ class ScriptSock:
             self.chunks.append(bytearray(data[prev:]))
 
     def pending(self):
+        return sum(len(c) for c in self.chunks)
+
+    def unread(self):
+        """bytes fed but not yet returned by recv() (for a TLS-like socket: records not yet read + decrypted bytes still buffered)"""
         return sum(len(c) for c in self.chunks)
 
     # -- socket API
@@ -130,6 +136,71 @@ class ScriptSock:
         return any(len(c) for c in self.chunks) or self.eof
 
 
+@functools.lru_cache(maxsize=None)
+def _tls_classes():
+    """-> (TLSScriptSock, FakeTLSContext), built lazily (the ssl module may be missing).
+
+    TLSScriptSock is a ScriptSock for which `isinstance(sock, ssl.SSLSocket)` holds and that models what matters to a reader of
+    an SSL socket: the chunks fed are TLS records; select() only sees records that have not been read from the transport yet
+    (and EOF); recv(n) with an empty plaintext buffer reads and decrypts ONE whole record and returns at most n bytes of it, the
+    rest stays buffered inside the SSL object where select() cannot see it and `pending()` reports it (ssl.SSLSocket.pending:
+    'number of already decrypted bytes available for read'); recv() never returns bytes of two records in one call; at EOF recv()
+    returns b'' (suppress_ragged_eofs). The handshake, record sizes > 16 KiB and renegotiation are not modelled."""
+    import ssl
+
+    class TLSScriptSock(ScriptSock, ssl.SSLSocket):
+        def __init__(self, *a, **k):  # (ssl.SSLSocket has no public constructor; the C-level socket object stays unopened, fd -1)
+            self._timeout = None
+            ScriptSock.__init__(self)
+            self.plain = bytearray()  # decrypted, not yet returned
+            self.server_hostname = k.get("server_hostname")
+
+        # `timeout` is a read-only descriptor of the C socket type
+        @property
+        def timeout(self):
+            return self._timeout
+
+        @timeout.setter
+        def timeout(self, v):
+            self._timeout = v
+
+        def pending(self):
+            return len(self.plain)
+
+        def unread(self):
+            return len(self.plain) + sum(len(c) for c in self.chunks)
+
+        def recv(self, n=1024, flags=0):
+            if self.closed:
+                raise OSError(9, "Bad file descriptor")
+            if not self.plain:
+                self.plain += ScriptSock.recv(self, 1 << 30)  # one whole record (or b"" at EOF; Stall / timeout as for a plain socket)
+            else:
+                self.recv_calls += 1
+            out = bytes(self.plain[:n])
+            del self.plain[:n]
+            return out
+
+        def readable(self):  # what select() can know: undecrypted records in the transport, or EOF
+            return ScriptSock.readable(self)
+
+        def __repr__(self):
+            return f"<TLSScriptSock records={len(self.chunks)} buffered={len(self.plain)}>"
+
+    class FakeTLSContext:
+        """stands in for the ssl.SSLContext of AssociationSocket.tls_args: wrap_socket() returns a TLSScriptSock that takes over
+        the state of the plain ScriptSock (as SSLContext.wrap_socket detaches the original socket)."""
+
+        def wrap_socket(self, sock, server_side=False, server_hostname=None, **kw):
+            t = TLSScriptSock(server_hostname=server_hostname)
+            for k in ("chunks", "eof", "sent", "sends", "closed", "connected_to", "refuse", "fail_send", "max_send", "addr"):
+                setattr(t, k, getattr(sock, k))
+            t.timeout = sock.timeout
+            return t
+
+    return TLSScriptSock, FakeTLSContext
+
+
 def _vselect(r, w, x, timeout=None):
     return ([s for s in r if s.readable()], [], [])
 
@@ -199,7 +270,10 @@ def make_timer(hook):
 class SyncDUL:
     """A real DULServiceProvider driven synchronously. Must be used inside `with installed():`."""
 
-    def __init__(self, mode="acceptor", state=None, record_dimse=True, handlers=()):
+    def __init__(self, mode="acceptor", state=None, record_dimse=True, handlers=(), tls=False):
+        """tls=True: the transport is a TLS-like scripted socket (see _tls_classes): the acceptor gets an already wrapped client
+        socket (what AssociationServer.get_request hands over when the server has an ssl_context, tls_args stays None), the requestor
+        gets tls_args = (FakeTLSContext(), hostname) so that AssociationSocket.connect() wraps its socket."""
         from pynetdicom import AE, evt
         from pynetdicom.association import Association
         from pynetdicom.transport import AddressInformation, AssociationSocket
@@ -210,11 +284,13 @@ class SyncDUL:
         self.ae = ae
         self.assoc = assoc = Association(ae, mode)
         if mode == "acceptor":
-            self.raw = ScriptSock()
+            self.raw = _tls_classes()[0]() if tls else ScriptSock()
             self.sock = AssociationSocket(assoc, client_socket=self.raw)
         else:
             self.sock = AssociationSocket(assoc, address=AddressInformation("127.0.0.1", 0))
             self.raw = self.sock.socket
+            if tls:
+                self.sock.tls_args = (_tls_classes()[1](), "localhost")
         assoc.set_socket(self.sock)
         assoc.acceptor.address_info = AddressInformation("127.0.0.1", 11112)
         assoc.requestor.address_info = AddressInformation("127.0.0.1", 40000)
